@@ -128,3 +128,6 @@ def field_term(sort: str, field: str, obj_t):
 def tag_term(sort: str, obj_t):
     import z3
     return core.uf(f"{sort}.__class__", core.usort(sort), z3.IntSort())(obj_t)
+
+
+SORT_ATTR_FALLBACK: dict = {}  # sort name -> callable(ctx, st, obj, attr) -> value or None
